@@ -1,6 +1,7 @@
 package PVM
 
 import (
+	"math"
 	"math/bits"
 
 	"github.com/New-JAMneration/JAM-Protocol/internal/types"
@@ -37,6 +38,11 @@ func Psi_M(
 	}
 
 	addition.Program = &program
+
+	// the machine counts gas in a signed 64-bit register: a limit of 2^63 or more would start
+	// negative (immediate out-of-gas, the whole limit reported as used). No execution can consume
+	// 2^63-1 units, so such a limit is run as 2^63-1.
+	gas = min(gas, types.Gas(math.MaxInt64))
 
 	host := NewHost(&program, registers, &memory, Gas(gas), addition, omegas)
 	psiHResult := host.HostCall(counter, 0)
